@@ -234,3 +234,55 @@ theorem view_items (cfg : Cfg) (s : RState K V) (hs : SInv s) (hsm : Small s) : 
     rw [this, hnb, habs]
 
 end BPT.Rust
+
+namespace BPT.Rust
+open BPT Tree RawMap
+variable {K V : Type} [Keyed K]
+
+/-- a fresh `ItemIterator` on the view of a valid state is positioned at the whole abstraction -/
+theorem view_start_pos (s : RState K V) (hs : SInv s) (hsm : Small s) :
+    ∃ st n, (view s).itemsStart = .ok st ∧ Pos (view s) s.cap st (abs s) n ∧ n + 1 ≤ (view s).fuel ∧
+      st.endKey = none ∧ st.endBound = none := by
+  have he := view_embeds s hs hsm
+  have hf := fuel_ok s hs
+  have hch := view_chain s hs hsm
+  have hfl := firstLeafOf_head s.height s.root none none hs.inv.ord
+  unfold RawMap.itemsStart RawMap.firstLeaf
+  rw [view_root, firstLeafFrom_spec (view s) s.cap s.height s.root _ he hf, hfl]
+  cases hL : Tree.leaves s.height s.root with
+  | nil =>
+    exfalso
+    exact links_ne_nil s.height s.root none none hs.inv.ord (by simp [links, hL])
+  | cons l0 rest =>
+    rw [hL] at hch
+    obtain ⟨hget, hlens, hne, hrest⟩ := hch.inv_cons
+    have habs : abs s = l0.entries.drop 0 ++ rest.flatMap Leaf.entries := by
+      simp [abs, toList, hL]
+    have hleaves_le : rest.length + 1 ≤ (view s).fuel := by
+      have fl := hs.leafIds.facts.1
+      rw [leafIds_eq_leaves, hL] at fl
+      simp only [List.map_cons, List.length_cons, List.length_map] at fl
+      unfold RawMap.fuel view viewLeaves
+      simp only [List.length_map, List.length_range]
+      omega
+    refine ⟨{ leaf := some (leafToRaw s.cap l0), idx := 0 }, rest.length, ?_, ?_, hleaves_le, rfl, rfl⟩
+    · simp only [List.head?_cons, Option.map_some, Res.map_ok, Option.bind_some, hget]
+    · rw [habs]
+      exact Pos.at _ l0 rest l0.next rest.length rfl hlens hrest rfl (Nat.zero_le _) rfl
+
+/-- `first()` -/
+theorem view_first (cfg : Cfg) (s : RState K V) (hs : SInv s) (hsm : Small s) : (view s).first cfg = .ok ((abs s).head?) := by
+  obtain ⟨st, n, he, hp, hf, e1, e2⟩ := view_start_pos s hs hsm
+  obtain ⟨out, st', hn, _, hres⟩ := itemNext_pos cfg (view s) s.cap n st (abs s) _ hp hf
+  unfold RawMap.first
+  rw [he]
+  simp only [Res.bind_ok, hn, Res.map_ok]
+  cases hR : abs s with
+  | nil => rw [hR] at hres; rw [hres.1]; rfl
+  | cons kv R' =>
+    rw [hR] at hres
+    have : beyondEnd cfg st kv.1 = false := by simp [beyondEnd, e1, e2]
+    simp only [this, Bool.false_eq_true, if_false] at hres
+    rw [hres.1]; rfl
+
+end BPT.Rust
